@@ -197,4 +197,12 @@ CHECKS = {
             dict(pkg="trace", run="TestC08Trace", checks_quick=8, checks_thorough=100, shards_quick=4, shards_thorough=8, shrinktime="40s", timeout_quick=600, timeout_thorough=3000),
         ],
     ),
+    "C14": dict(
+        level="exploration",
+        technique="harness-owned schedule exploration (rapid-generated schedules over build-tag hook points and SimFS I/O gates) of Close racing with other calls; verdicts from results, recovered panics and goroutine-stack evidence of deadlock",
+        rule="a generated prefix (1-8 entries, optional head truncation), then 1-4 concurrent calls drawn from GetLog/FirstIndex/LastIndex/Get/Set/StoreLogs (plain, segment-filling, segment-filling then another)/DeleteRange (head, tail)/a second Close, plus Close, at most one log writer. Every call is a worker goroutine parked at named points (after its closed-check, acquireState between load and acquire, before taking the write lock, awaitRotation after unlock, runRotate after trigger and after lock, Close after flag and after lock, mutate after publish) and at SimFS WriteAt/SyncFile/CommitState/Create/ReadAt/Unlink; a generated list of choices releases one parked goroutine at a time, biased so that Close runs while a target call sits between its closed-check and its use of the state. Verdicts: no panic; each result is a correct answer for some log state or ErrClosed; nobody is left blocked inside raft-wal after all goroutines are released (stack evidence); afterwards every method returns ErrClosed, Close is idempotent, the rotation goroutine is gone, no file handle is open, and a reopen shows every acknowledged write. Non-trivial = Close was released while the target call was parked inside its window; distinct = FNV-64 of the case",
+        expect_classes=["close-inside-call-window", "got-ErrClosed"],
+        assumptions=COMMON_ASSUME + SIM_ASSUME + ["schedules are controlled at hook/I-O granularity; a released goroutine that reaches no point within 3ms is treated as blocked on a lock for scheduling purposes only (never as a verdict)", "single log writer at a time (documented contract)", "a panic on a goroutine the harness does not own (the rotation goroutine) kills the test binary; the driver then reports the log as the replay"],
+        jobs=[dict(pkg="sched", run="TestC14Close", checks_quick=60, checks_thorough=1500, shards_quick=12, shards_thorough=16, shrinktime="30s", timeout_quick=600, timeout_thorough=3000)],
+    ),
 }
